@@ -257,10 +257,20 @@ def _renumber(recs):
 
 
 def op_icode(recs, rng, arg=None):
-    """a residue gets the number of its predecessor plus an insertion code"""
+    """a residue gets the number of its predecessor plus an insertion code; neighbours of the SAME name are preferred (only
+    then the insertion code is what tells the two residues apart)"""
     runs = _residues(recs)
     cands = [k for k in range(1, len(runs)) if runs[k][0]['chain'] == runs[k - 1][0]['chain'] and not runs[k][0].get('het')]
-    for k in rng.sample(cands, min(2, len(cands))):
+    same = [k for k in cands if runs[k][0]['resname'] == runs[k - 1][0]['resname']]
+    rng.shuffle(same)
+    rng.shuffle(cands)
+    done = set()
+    for k in (same + cands):
+        if len(done) >= 2:
+            break
+        if k in done or k - 1 in done or k + 1 in done:
+            continue
+        done.add(k)
         for r in runs[k]:
             r['resid'] = runs[k - 1][0]['resid']
             r['icode'] = 'A' if runs[k - 1][0]['icode'] == '' else 'B'
@@ -268,15 +278,23 @@ def op_icode(recs, rng, arg=None):
 
 
 def op_restart(recs, rng, arg=None):
-    """the residue numbers start again in the middle of a chain (no TER): residues of the same name then coincide"""
+    """the residue numbers start again in the middle of a chain (no TER) such that a residue coincides in chain, number
+    and NAME with an earlier one: the two are then one residue for bond guessing"""
     runs = [x for x in _residues(recs) if not x[0].get('het')]
     if len(runs) < 2:
         return recs
-    half = len(runs) // 2
-    first = runs[0][0]['resid']
-    for k, run in enumerate(runs[half:]):
+    pairs = [(i, j) for j in range(len(runs) // 3, len(runs)) for i in range(j - 1) if runs[i][0]['resname'] == runs[j][0]['resname']
+             and runs[i][0]['chain'] == runs[j][0]['chain']]
+    if pairs:
+        i, j = rng.choice(pairs)
+    else:
+        i, j = 0, len(runs) // 2
+    shift = runs[j][0]['resid'] - runs[i][0]['resid']
+    for run in runs[j:]:
+        if run[0]['chain'] != runs[j][0]['chain']:
+            break
         for r in run:
-            r['resid'] = first + k
+            r['resid'] -= shift
     return recs
 
 
@@ -296,7 +314,15 @@ def op_ter_mid(recs, rng, arg=None):
 
 def op_restart_ter(recs, rng, arg=None):
     """numbers start again after a TER: residues of two input molecules with coinciding chain / number / name"""
-    return op_ter_mid(op_restart(recs, rng), rng)
+    before = {id(r): r['resid'] for r in _atoms(recs)}
+    recs = op_restart(recs, rng)
+    cut = next((r for r in _atoms(recs) if before[id(r)] != r['resid']), None)
+    out = []
+    for r in recs:
+        if r is cut:
+            out.append({'k': 'ter'})
+        out.append(r)
+    return out
 
 
 def op_models(recs, rng, arg=3):
@@ -679,11 +705,15 @@ def build_file(case, R):
         nm, _, arg = op.partition(':')
         recs = OPS[nm](recs, rng, arg) if arg else OPS[nm](recs, rng)
     fmt = case.get('fmt', 'pdb')
-    fu = tuple(case['fudge'])
+    fus = {tuple(case['fudge'])}           # every fudge factor of the case's history
+    for step in case.get('history', []):
+        parts = step.split(':')
+        if parts[0] == 'run' and len(parts) > 2:
+            fus.add(tuple(int(x) for x in parts[2].split('/')))
     for _ in range(40):            # move pairs off the exact threshold
         at = _atoms(recs)
         view = [{'el': element_guess(r, fmt), 'x': r['x'], 'y': r['y'], 'z': r['z']} for r in at]
-        bad = near_pairs(view, R, fu)
+        bad = [p for fu in sorted(fus) for p in near_pairs(view, R, fu)]
         if not bad:
             break
         for _, j in bad:
